@@ -107,9 +107,47 @@ def translate_location_check():
             if "relative_to" in body and any(isinstance(n, ast.Raise) for n in ast.walk(node)):
                 guarded = True
     flag = (not any(sites)) and guarded
+    # 5539e78: StoredFileInfo.file_location -- the location of a RELATIVE record path is built untrusted as well
+    stree = ast.parse((PKG / "datastore" / "stored_file_info.py").read_text())
+    fl = None
+    for cls in ast.walk(stree):
+        if isinstance(cls, ast.ClassDef) and cls.name == "StoredFileInfo":
+            fl = next((f for f in cls.body if isinstance(f, ast.FunctionDef) and f.name == "file_location"), None)
+    if fl is None:
+        raise Untranslatable("StoredFileInfo.file_location not found")
+    rsites = []
+    for node in ast.walk(fl):
+        if isinstance(node, ast.Call) and isinstance(node.func, ast.Attribute) and node.func.attr in ("from_uri", "fromPath", "fromUri"):
+            kw = {k.arg: k.value for k in node.keywords}
+            tp = kw.get("trusted_path")
+            if tp is None:
+                default = _factory_default(ltree, node.func.attr)
+                rsites.append(default)
+            elif isinstance(tp, ast.Constant) and isinstance(tp.value, bool):
+                rsites.append(tp.value)
+            else:
+                raise Untranslatable(f"trusted_path is not a literal at stored_file_info.py line {node.lineno}")
+    if len(rsites) != 1:
+        raise Untranslatable(f"expected 1 factory call in StoredFileInfo.file_location, found {len(rsites)}")
+    rflag = (not any(rsites)) and guarded
     return {"Gen/TrashGen.v": "(* GENERATED on every run by harness/props/c09.py (translate_location_check) from\n"
-                              "   python/lsst/daf/butler/datastores/fileDatastore.py and _location.py.  Do not edit, do not commit. *)\n"
-                              f"Definition GEN_LOCATION_CHECKED : bool := {'true' if flag else 'false'}.\n"}
+                              "   python/lsst/daf/butler/datastores/fileDatastore.py, datastore/stored_file_info.py and _location.py.\n"
+                              "   Do not edit, do not commit. *)\n"
+                              f"Definition GEN_LOCATION_CHECKED : bool := {'true' if flag else 'false'}.\n"
+                              f"Definition GEN_RECORD_CHECKED : bool := {'true' if rflag else 'false'}.\n"}
+
+
+def _factory_default(ltree, name):
+    """default of the trusted_path parameter of LocationFactory.<name> (fail-closed)"""
+    for cls in ast.walk(ltree):
+        if isinstance(cls, ast.ClassDef) and cls.name == "LocationFactory":
+            for f in cls.body:
+                if isinstance(f, ast.FunctionDef) and f.name == name:
+                    args = f.args
+                    for a, d in list(zip(args.kwonlyargs, args.kw_defaults)) + list(zip(args.args[-len(args.defaults):] if args.defaults else [], args.defaults)):
+                        if a.arg == "trusted_path" and isinstance(d, ast.Constant) and isinstance(d.value, bool):
+                            return d.value
+    raise Untranslatable(f"default of trusted_path in LocationFactory.{name} not found")
 
 
 # ---------------------------------------------------------------------------------------------------------
@@ -300,6 +338,16 @@ def gen_history(r, nops, hostile, mixed=False):
             if refs:
                 direct_used.add(src)
                 ops.append({"op": "ingest", "mode": "direct", "ks": [newk(d, direct=True) for d in refs], "refs": refs, "src": src})
+        elif x < 0.545:
+            # a file BELOW the root that the datastore does not own: direct ingest (one or two refs), later pruned
+            run = r.choice(live_runs)
+            refs = [d for d in (fresh_fields(run) for _ in range(r.choice([1, 1, 2]))) if d]
+            refs = [d for d in refs if d["dt"] == refs[0]["dt"]] if refs else []
+            if refs:
+                n = len(ops)
+                ops.append({"op": "mkfile", "rel": f"repo/user_archive/u{n}.yaml", "content": f"{{v: {300 + n}}}\n"})
+                ops.append({"op": "ingest", "mode": "direct", "ks": [newk(d, direct=True) for d in refs], "refs": refs,
+                            "src": f"repo/user_archive/u{n}.yaml"})
         elif x < 0.57:
             d = fresh_fields()
             if d:
@@ -365,6 +413,18 @@ def cfields(d) -> str:
     if d["dt"] == "dtD":
         f += [("detector", str(d["det"])), ("detector.full_name", d["detname"])]
     return clist([f"({cstr(k)}, {cstr(v)})" for k, v in f])
+
+
+def py_loc(p: str) -> str:
+    """listing key of a RELATIVE record path (decode as lsst.resources does; used only to order rows, see Reorder)"""
+    import posixpath
+    head, sep, tail = p.rpartition("/")
+    if "#" in tail:
+        tail = tail.rsplit("#", 1)[0]
+    q = head + sep + tail
+    if UPESC.search(q):
+        q = posixpath.normpath(unquote(q))
+    return posixpath.normpath(unquote(q))
 
 
 class Cids:
@@ -482,12 +542,20 @@ def oracle(h, res):
     def dec(d):
         return tuple(full_unquote(x) for x in raw(d))
     aliased = {k for k, d in fields.items() if any(k2 != k and raw(d2) != raw(d) and dec(d2) == dec(d) for k2, d2 in fields.items())}
+    foreign_inside = set()       # files below the root that the datastore does not own (ingested with transfer="direct")
     for n, op in enumerate(h["ops"]):
         b, a = steps[n], steps[n + 1]
         kind = op["op"]
         if kind == "mkfile":
             continue
         tag = kind + (":" + op["mode"] if kind == "ingest" else "")
+        if kind == "ingest" and op["mode"] == "direct" and op["src"].startswith("repo/"):
+            foreign_inside.add(op["src"][len("repo/"):])
+        # (3) a file the datastore does not own is never removed, also when it lives below the root
+        for key in sorted(foreign_inside):
+            if key in b["files"] and key not in a["files"]:
+                fails.append((f"foreign-file-removed:{tag}:direct-under-root", n,
+                              f"step {n} ({tag}, outcome {a['out']}): file {key}, ingested with transfer='direct' (not owned by the datastore), was removed"))
         refused = "" if a["out"] == "ok" else ":refused"
         # (1) nothing outside the root is created, changed or removed
         for key in sorted(set(b["files"]) | set(a["files"])):
@@ -594,33 +662,45 @@ def correspond(ctx, name, pairs, expect=None):
         cid = Cids()
         init = cfiles(res["steps"][0]["files"], cid)
         mops = model_ops(h, res, cid)
-        items, gops = [], []
+        items, gops, step_of_item = [], [], []
         for n, m in enumerate(mops[:cut]):
             if m is None:
                 break
             b4, af = res["steps"][n], res["steps"][n + 1]
+            if h["ops"][n]["op"] in ("empty", "prune", "removerun") and af["out"] == "ValueError":
+                # emptyTrash was refused at a record that resolves outside the root (5539e78) after removing the artifacts of
+                # the rows the database returned before it: tell the model which rows those were (the order is the database's)
+                gone = {k for k in b4["files"] if k not in af["files"]}
+                first = sorted({k for k, p_ in af["recs"] if k in af["trash"] and not p_.startswith("/") and py_loc(p_) in gone})
+                ro = f"Reorder {clist([cn(k) for k in first])}"
+                items.append(f"({ro}, {cobs(dict(b4, out='ok'), cid)})")
+                gops.append(ro)
+                step_of_item.append(None)
+                ctx.hist("compared", "refused-emptyTrash-order-supplied")
             if af["out"] not in OUT_CODE and all(b4[k] == af[k] for k in ("files", "recs", "live", "trash")):
                 # refused by the REGISTRY before the datastore was reached (e.g. the run has been removed): outside the
                 # model; what is checked is that nothing changed
                 ctx.hist("compared", "registry-refused-noop:" + af["out"])
                 items.append(f"(Trash [], {cobs(dict(af, out='ok'), cid)})")
                 gops.append("Trash []")
+                step_of_item.append(n)
                 continue
             items.append(f"({m}, {cobs(af, cid)})")
             gops.append(m)
+            step_of_item.append(n)
         if cut < len(h["ops"]):
             ctx.hist("compared", "truncated-at-outside-put")
         cases.append(f"({init}, {clist(items)})")
-        meta.append((hi, len(items)))
+        meta.append((hi, len(items), step_of_item))
         failed_at = {n for _, n, _ in fails}
-        flagged = ["(" + m + ", " + ("true" if n in failed_at else "false") + ")" for n, m in enumerate(gops)]
+        flagged = ["(" + m + ", " + ("true" if step_of_item[i] in failed_at else "false") + ")" for i, m in enumerate(gops)]
         xg_cases.append(f"({init}, {clist(flagged)})")
         for n in failed_at:
-            ctx.hist("guard_crosscheck", "failure-at-compared-step" if n < len(gops) else "failure-beyond-comparison")
+            ctx.hist("guard_crosscheck", "failure-at-compared-step" if n in step_of_item else "failure-beyond-comparison")
         # cross-check theorem <-> oracle: an oracle failure at a compared step must coincide with a violated guard of the
         # theorems in the model's state before that step (otherwise theorem + correspondence would contradict the oracle)
         if fails and len(xcheck) < XCHECK_MAX:
-            want = sorted({n for _, n, _ in fails if n < len(gops)})
+            want = sorted({i for i, n in enumerate(step_of_item) if n in failed_at})
             if want:
                 xcheck.append((hi, want, f"guards (init_state {init}) {clist(gops)}"))
     if not cases:
@@ -644,7 +724,7 @@ def correspond(ctx, name, pairs, expect=None):
         if hi in badset:
             continue
         rc, out = ctx.coq_eval(f"{name}_guards{hi}", HDR, expr)
-        tuples = re.findall(r"\((true|false),\s*(true|false),\s*(true|false),\s*(true|false),\s*(true|false)\)", out)
+        tuples = re.findall(r"\((true|false),\s*(true|false),\s*(true|false),\s*(true|false),\s*(true|false),\s*(true|false)\)", out)
         if rc != 0 or not tuples:
             ctx.tie_broken("correspondence", f"{name}-guards", f"could not evaluate the guards: {out[-300:]}")
             continue
@@ -653,13 +733,15 @@ def correspond(ctx, name, pairs, expect=None):
                 ctx.hist("guard_crosscheck", "explained" if "false" in tuples[n] else "UNEXPLAINED")
                 if "false" not in tuples[n]:
                     ctx.tie_broken("correspondence", f"{name}-guards",
-                                   f"oracle failure at step {n} of history {json.dumps(pairs[hi][0]['ops'][n])} although every guard of the theorems holds in the model")
+                                   f"oracle failure at compared item {n} of history {json.dumps(pairs[hi][0]['ops'])[:400]} although every guard of the theorems holds in the model")
     for i in bad[:3]:
-        hi, nsteps = meta[i]
+        hi, nsteps, soi = meta[i]
         h, res = pairs[hi]
         rc, out = ctx.coq_eval(f"{name}_diag{i}", HDR, f"let c := {cases[i]} in first_bad 0%N (init_state (fst c)) (snd c)")
         m = re.search(r"Some\s*\(\s*(\d+)%?N?", out)
         step = int(m.group(1)) if m else -1
+        if 0 <= step < len(soi):
+            step = soi[step] if soi[step] is not None else (soi[step + 1] if step + 1 < len(soi) else -1)
         imp = res["steps"][step + 1] if step >= 0 else {}
         ctx.disagreement(name, {"step": step, "op": h["ops"][step] if 0 <= step < len(h["ops"]) else None,
                                 "impl": {k: imp.get(k) for k in ("out", "msg", "recs", "live", "trash", "files")}, "history": h},
